@@ -104,13 +104,23 @@ func discharge(o Obligation, dir string, thorough bool, timeout time.Duration) R
 	base := fileBase(o.Name)
 	res := Result{Obl: o}
 	if thorough {
+		// every obligation goes to both z3 versions; cvc5 cross-checks a seeded sample (it times out on most of the
+		// quantified queries, so running it everywhere would only burn the time limit)
+		specs := []solverSpec{solverZ3New, solverZ3Old}
+		if o.Sample {
+			specs = append(specs, solverCVC5)
+		}
 		var wg sync.WaitGroup
-		atts := make([]Attempt, 3)
-		for i, sp := range []solverSpec{solverZ3New, solverZ3Old, solverCVC5} {
+		atts := make([]Attempt, len(specs))
+		for i, sp := range specs {
 			wg.Add(1)
 			go func(i int, sp solverSpec) {
 				defer wg.Done()
-				atts[i] = runOne(sp, dir, base, o.Query, timeout)
+				to := timeout
+				if sp.name == solverCVC5.name {
+					to = 15 * time.Second
+				}
+				atts[i] = runOne(sp, dir, base, o.Query, to)
 			}(i, sp)
 		}
 		wg.Wait()
